@@ -1,1 +1,228 @@
-pub fn main(_a: &[String]) -> i32 { 2 }
+//! sweep: observe, through is_match of ^C$ on every one-character string, which scalar values the code
+//! gives to a class C.
+//!   sweep unicode --out DIR --splits FILE   all category / block / multi-character escapes over all 1,112,064
+//!                                           scalar values; output = maximal runs of equal membership vectors
+//!                                           (additionally split at the code points listed in FILE)
+//!   sweep classes --in FILE --out FILE [--full]   class expressions (one JSON {"pat":[..],"flags":[..]} per line):
+//!                                           full interval sets, or membership at the given points
+use crate::{arg, cps_to_string, string_to_cps};
+use regexml::Regex;
+use serde_json::{json, Value};
+use std::io::{BufRead, Write};
+
+fn scalars() -> impl Iterator<Item = u32> {
+    (0u32..=0x10FFFF).filter(|c| !(0xD800..=0xDFFF).contains(c))
+}
+
+const CATS: &[&str] = &[
+    "L", "Lu", "Ll", "Lt", "Lm", "Lo", "M", "Mn", "Mc", "Me", "N", "Nd", "Nl", "No", "P", "Pc", "Pd", "Ps", "Pe", "Pi",
+    "Pf", "Po", "Z", "Zs", "Zl", "Zp", "S", "Sm", "Sc", "Sk", "So", "C", "Cc", "Cf", "Co", "Cn",
+];
+
+pub fn main(args: &[String]) -> i32 {
+    match args.first().map(|s| s.as_str()) {
+        Some("unicode") => unicode(&args[1..]),
+        Some("classes") => classes(&args[1..]),
+        _ => 2,
+    }
+}
+
+fn compile_all(pats: &[String], flags: &str) -> Result<Vec<Regex>, String> {
+    let mut v = Vec::new();
+    for p in pats {
+        match Regex::xpath(p, flags) {
+            Ok(r) => v.push(r),
+            Err(e) => return Err(format!("{}: {:?}", p, e)),
+        }
+    }
+    Ok(v)
+}
+
+fn unicode(args: &[String]) -> i32 {
+    let out = arg(args, "--out").unwrap_or("sweep").to_string();
+    let blocks_file = arg(args, "--blocks").unwrap_or("data/blocks.json").to_string();
+    let splits_file = arg(args, "--splits").unwrap_or("").to_string();
+    let nthreads: usize = arg(args, "--threads").and_then(|s| s.parse().ok()).unwrap_or(12);
+    std::fs::create_dir_all(&out).expect("out dir");
+    // the escapes under test, with the description the trace spec understands
+    let mut names: Vec<Value> = Vec::new();
+    let mut pats: Vec<String> = Vec::new();
+    for c in CATS {
+        for neg in [false, true] {
+            names.push(json!({"t":"p","neg":neg,"name":c}));
+            pats.push(format!("^\\{}{{{}}}$", if neg { 'P' } else { 'p' }, c));
+        }
+    }
+    for e in ["d", "D", "w", "W", "s", "S", "i", "I", "c", "C"] {
+        names.push(json!({"t":"e","e":e}));
+        pats.push(format!("^\\{}$", e));
+    }
+    let blocks: Value = serde_json::from_str(&std::fs::read_to_string(&blocks_file).expect("blocks.json")).expect("json");
+    let mut block_names: Vec<String> = blocks["blocks"]
+        .as_array()
+        .unwrap()
+        .iter()
+        .map(|b| cps_to_string(&b["name"]).unwrap())
+        .collect();
+    block_names.push("PrivateUse".to_string());
+    block_names.sort();
+    block_names.dedup();
+    for b in &block_names {
+        for neg in [false, true] {
+            names.push(json!({"t":"b","neg":neg,"name":string_to_cps(b)}));
+            pats.push(format!("^\\{}{{Is{}}}$", if neg { 'P' } else { 'p' }, b));
+        }
+    }
+    let mut splits: Vec<u32> = Vec::new();
+    if !splits_file.is_empty() {
+        let v: Value = serde_json::from_str(&std::fs::read_to_string(&splits_file).expect("splits")).expect("json");
+        splits = v.as_array().unwrap().iter().map(|x| x.as_u64().unwrap() as u32).collect();
+    }
+    let split_set: std::collections::HashSet<u32> = splits.into_iter().collect();
+    let all: Vec<u32> = scalars().collect();
+    let chunk = all.len().div_ceil(nthreads);
+    let pats_ref = &pats;
+    let split_ref = &split_set;
+    let results: Vec<Result<Vec<(u32, u32, Vec<usize>)>, String>> = std::thread::scope(|s| {
+        let hs: Vec<_> = all
+            .chunks(chunk)
+            .map(|ch| {
+                s.spawn(move || {
+                    let res = compile_all(pats_ref, "")?;
+                    let mut segs: Vec<(u32, u32, Vec<usize>)> = Vec::new();
+                    let mut buf = String::new();
+                    for &cp in ch {
+                        buf.clear();
+                        buf.push(char::from_u32(cp).unwrap());
+                        let yes: Vec<usize> = res.iter().enumerate().filter(|(_, r)| r.is_match(&buf)).map(|(i, _)| i).collect();
+                        match segs.last_mut() {
+                            Some((_, hi, y)) if *y == yes && *hi + 1 == cp && !split_ref.contains(&cp) => *hi = cp,
+                            _ => segs.push((cp, cp, yes)),
+                        }
+                    }
+                    Ok(segs)
+                })
+            })
+            .collect();
+        hs.into_iter().map(|h| h.join().unwrap()).collect()
+    });
+    let mut f = std::fs::File::create(format!("{}/unicode.ndjson", out)).expect("out file");
+    writeln!(f, "{}", json!({"ev":"names","names":names})).unwrap();
+    let mut nseg = 0;
+    for r in results {
+        match r {
+            Err(e) => {
+                eprintln!("sweep: cannot compile {}", e);
+                writeln!(f, "{}", json!({"ev":"compile_failed","what":e})).unwrap();
+                return 0;
+            }
+            Ok(segs) => {
+                for (lo, hi, yes) in segs {
+                    // 1-based indices for TLA+
+                    let y: Vec<usize> = yes.iter().map(|i| i + 1).collect();
+                    writeln!(f, "{}", json!({"ev":"seg","lo":lo,"hi":hi,"yes":y})).unwrap();
+                    nseg += 1;
+                }
+            }
+        }
+    }
+    println!("{}", json!({"escapes": pats.len(), "segments": nseg, "scalars": all.len()}));
+    0
+}
+
+fn set_of(re: &Regex) -> Vec<(u32, u32)> {
+    let mut out: Vec<(u32, u32)> = Vec::new();
+    let mut buf = String::new();
+    for cp in scalars() {
+        buf.clear();
+        buf.push(char::from_u32(cp).unwrap());
+        if re.is_match(&buf) {
+            match out.last_mut() {
+                Some((_, hi)) if *hi + 1 == cp => *hi = cp,
+                _ => out.push((cp, cp)),
+            }
+        }
+    }
+    out
+}
+
+fn classes(args: &[String]) -> i32 {
+    let input = arg(args, "--in").unwrap_or("classes.ndjson").to_string();
+    let out = arg(args, "--out").unwrap_or("classes_out.ndjson").to_string();
+    let full = args.iter().any(|a| a == "--full");
+    let nthreads: usize = arg(args, "--threads").and_then(|s| s.parse().ok()).unwrap_or(12);
+    let lines: Vec<String> = std::io::BufReader::new(std::fs::File::open(&input).expect("input"))
+        .lines()
+        .map_while(Result::ok)
+        .collect();
+    let chunk = lines.len().div_ceil(nthreads).max(1);
+    let outs: Vec<Vec<String>> = std::thread::scope(|s| {
+        let hs: Vec<_> = lines
+            .chunks(chunk)
+            .map(|ch| {
+                s.spawn(move || {
+                    let mut res = Vec::new();
+                    for l in ch {
+                        let j: Value = match serde_json::from_str(l) {
+                            Ok(j) => j,
+                            Err(_) => continue,
+                        };
+                        let c = cps_to_string(&j["pat"]).unwrap_or_default();
+                        let flags = cps_to_string(&j["flags"]).unwrap_or_default();
+                        // the class on its own, under a quantifier, inside a group next to an optional literal
+                        let ctxs = [format!("^{}$", c), format!("^(?:{})+$", c), format!("^\u{1}?({})$", c)];
+                        let mut sets = Vec::new();
+                        let mut err = json!({});
+                        for p in &ctxs {
+                            let r = std::panic::catch_unwind(|| Regex::xpath(p, &flags));
+                            match r {
+                                Ok(Ok(re)) => {
+                                    if full {
+                                        let s = set_of(&re);
+                                        sets.push(json!(s.iter().map(|(a, b)| json!([a, b])).collect::<Vec<_>>()));
+                                    } else {
+                                        let pts: Vec<Value> = j["pts"]
+                                            .as_array()
+                                            .cloned()
+                                            .unwrap_or_default()
+                                            .iter()
+                                            .filter_map(|x| x.as_u64())
+                                            .filter_map(|cp| char::from_u32(cp as u32))
+                                            .map(|ch| json!([ch as u32, re.is_match(&ch.to_string())]))
+                                            .collect();
+                                        sets.push(json!(pts));
+                                    }
+                                }
+                                Ok(Err(e)) => {
+                                    err = crate::worker::err_value(&e);
+                                    break;
+                                }
+                                Err(_) => {
+                                    err = json!({"k":"panic"});
+                                    break;
+                                }
+                            }
+                        }
+                        res.push(
+                            json!({"ev": if full {"class"} else {"classpts"}, "pat": j["pat"], "flags": j["flags"],
+                                   "sets": sets, "err": err})
+                            .to_string(),
+                        );
+                    }
+                    res
+                })
+            })
+            .collect();
+        hs.into_iter().map(|h| h.join().unwrap()).collect()
+    });
+    let mut f = std::fs::File::create(&out).expect("out");
+    let mut n = 0;
+    for o in outs {
+        for l in o {
+            writeln!(f, "{}", l).unwrap();
+            n += 1;
+        }
+    }
+    println!("{}", json!({"classes": n, "full": full}));
+    0
+}
